@@ -195,3 +195,218 @@ class CellAveragedPdf(Contract):
         want = self.cell(d, idx[d], idx[c] if c is not None else 0) / dx
         cx.oblige("post.cdf_difference", T.eq(r.get(tuple(idx)), want), "post", "cell average = CDF difference over the cell, conditioning value = centre of the conditioning cell on ITS axis")
         cx.oblige("frame.coords", all(a.buf.writes == 0 for a in self.coords), "frame")
+
+
+from vf.engine.vc import ContractStop  # noqa: E402
+from vf.engine.values import Builtin, Opaque  # noqa: E402
+
+
+@contract(HD + "._compute", ["C02", "C15"], [dict(nd=nd, reach=r, deltas=dk) for nd in (2, 3) for r in ("reached", "not_reached") for dk in ("list",)],
+          name="hdc.compute.region")
+class HdcComputeRegion(Contract):
+    """_compute up to the boundary extraction: grid = min + k*delta per axis; cell probabilities = cell-averaged
+    density x cell volume; the region comes from cumsum_biggest_until(cell_prob, 1 - alpha); fm = density of the
+    least dense enclosed cell; if 1-alpha is not reachable a RuntimeWarning is emitted and the whole grid is the region;
+    the erosion is called on that region with the full 3^n structure.  (Verified up to the call of ndi.binary_erosion.)"""
+
+    def case_label(self, case):
+        return f"n_dim={case['nd']},{case['reach']}"
+
+    def setup(self, itp, case):
+        me = self
+        nd = case["nd"]
+
+        def joint(itp_, args, kwargs):
+            coords = args[1]
+            me.coords = coords
+            shape = tuple(c.shape[0] for c in coords)
+            f = T.uf("fbar", *(["int"] * nd + ["real"]))
+            me.fbar = f
+            return SArr.fresh(shape, lambda idx: f(*[T.zi(i) for i in idx]), "real", name="f")
+        itp.summaries[HD + ".cell_averaged_joint_pdf"] = joint
+
+        def csb(itp_, args, kwargs):
+            arr, limit = args[-2], args[-1]
+            me.csb_args = (arr.snapshot(), limit)
+            cx = itp_.cx
+            if case["reach"] == "not_reached":
+                # contract of cumsum_biggest_until: warns RuntimeWarning when the limit is not reachable
+                if cx.warn_filters and cx.warn_filters[-1] == "error":
+                    raise PyRaise("RuntimeWarning", "The limit could not be reached.")
+                cx.event("warn", "RuntimeWarning")
+            hdr = T.uf("HDR", *(["int"] * nd + ["real"]))
+            me.hdr = hdr
+            me.prob_m = cx.sym("prob_m", "real")
+            return (SArr.fresh(arr.shape, lambda idx: hdr(*[T.zi(i) for i in idx]), "real", name="HDR"), Sym(me.prob_m))
+        itp.summaries[HD + ".cumsum_biggest_until"] = csb
+
+        def erosion(itp_, a, k):
+            me.erosion_args = (a[0], k.get("structure", a[1] if len(a) > 1 else None))
+            me.fm_local = itp_.frames[-1].vars.get("fm") if itp_.frames else None
+            raise ContractStop("verified up to ndi.binary_erosion; boundary extraction and ordering: bounded (vf/rt/C15.py)")
+        itp.lib.table["scipy.ndimage.binary_erosion"] = Builtin("scipy.ndimage.binary_erosion", erosion)
+
+    def inputs(self, itp, case):
+        cx = itp.cx
+        nd = case["nd"]
+        co = [None] + [0] * (nd - 1)
+        self.model, self.dists = make_model(cx, co)
+        self.alpha = real(cx, "alpha")
+        cx.assume(T.land(T.gt(self.alpha.t, 0), T.lt(self.alpha.t, 1)))
+        self.mins = [real(cx, f"min{i}") for i in range(nd)]
+        self.maxs = [real(cx, f"max{i}") for i in range(nd)]
+        self.deltas = [real(cx, f"delta{i}") for i in range(nd)]
+        for i in range(nd):
+            cx.assume(T.land(T.lt(self.mins[i].t, self.maxs[i].t), T.gt(self.deltas[i].t, 0)))
+        limits = [(self.mins[i], self.maxs[i]) for i in range(nd)]
+        self.obj = SObj(HD, {"model": self.model, "alpha": self.alpha, "limits": limits, "deltas": list(self.deltas)}, owner="call")
+        return [self.obj], {}
+
+    def post(self, itp, case, inp, out):
+        cx = itp.cx
+        nd = case["nd"]
+        if out.outcome != "stopped":
+            cx.oblige("post.reaches_erosion", False, "post", f"{out.outcome}: {out.exc} {out.msg}")
+            return
+        # grid
+        for i in range(nd):
+            c = self.coords[i]
+            (k,) = fresh_index(cx, (c.shape[0],))
+            cx.oblige(f"post.grid.{i}", T.eq(c.get((k,)), T.add(self.mins[i].t, T.mul(k, self.deltas[i].t))), "post", "cell centres min + k*delta on axis i")
+        arr, limit = self.csb_args
+        idx = fresh_index(cx, arr.shape)
+        vol = Fraction(1)
+        for d in self.deltas:
+            vol = T.mul(vol, d.t)
+        cx.oblige("post.cell_probability", T.eq(arr.get(idx), T.mul(self.fbar(*[T.zi(i) for i in idx]), vol)), "post", "cell probability = cell-averaged density x product of ALL cell sizes")
+        cx.oblige("post.limit_is_1_minus_alpha", T.eq(term_of(limit), T.sub(1, self.alpha.t)), "post", "the region is asked to hold 1 - alpha")
+        hdr_arg, structure = self.erosion_args
+        warned = ("warn", "RuntimeWarning") in [tuple(e) for e in cx.events]
+        if case["reach"] == "reached":
+            cx.oblige("post.no_warning", not warned, "post")
+            cx.oblige("post.region", T.eq(hdr_arg.get(idx), self.hdr(*[T.zi(i) for i in idx])) if isinstance(hdr_arg, SArr) else False, "post", "the eroded region is the one returned by cumsum_biggest_until")
+        else:
+            cx.oblige("post.warn_path", warned, "post", "RuntimeWarning is emitted when 1-alpha is not reachable")
+            cx.oblige("post.whole_grid", T.eq(hdr_arg.get(idx), 1) if isinstance(hdr_arg, SArr) else False, "post", "fallback region is the whole grid, not a smaller one")
+        pm = self.prob_m if case["reach"] == "reached" else 0
+        cx.oblige("post.fm", T.eq(T.mul(term_of(self.fm_local), vol), pm) if self.fm_local is not None and is_scalar(self.fm_local) else False, "post",
+                  "fm x cell volume = probability of the least dense enclosed cell (0 on the warning path)")
+        ok_struct = isinstance(structure, SArr) and structure.ndim == nd and all(isinstance(e, int) and e == 3 for e in structure.shape)
+        cx.oblige("post.full_structure.shape", ok_struct, "post", "structuring element is 3 x ... x 3")
+        if ok_struct:
+            sidx = fresh_index(cx, structure.shape)
+            t = structure.get(sidx)
+            cx.oblige("post.full_structure.ones", t if T.sort_of(t) == "bool" else T.eq(t, 1), "post", "all 3^n - 1 neighbours count (full structure)")
+
+
+@contract(HD + ".cell_averaged_joint_pdf", ["C02"], [dict(co=co) for co in structures((2, 3))], name="hdc.cell_averaged_joint_pdf")
+class CellAveragedJoint(Contract):
+    """joint cell-averaged density = broadcast product of the per-variable cell-averaged densities, every variable
+    exactly once"""
+
+    def case_label(self, case):
+        return f"conditional_on={structure_label(case['co'])}"
+
+    def setup(self, itp, case):
+        me = self
+        co = case["co"]
+        nd = len(co)
+        me.caps = {}
+
+        def cap(itp_, args, kwargs):
+            d = args[1]
+            coords = args[2]
+            c = co[d]
+            shape = tuple(coords[ax].shape[0] if ax in (d, c) else 1 for ax in range(nd))
+            f = T.uf(f"cap{d}", "int", "int", "real")
+            me.caps[d] = f
+            return SArr.fresh(shape, lambda idx, f=f, d=d, c=c: f(T.zi(idx[d]), T.zi(idx[c]) if c is not None else z3.IntVal(0)), "real")
+        itp.summaries[HD + ".cell_averaged_pdf"] = cap
+
+    def inputs(self, itp, case):
+        cx = itp.cx
+        co = case["co"]
+        nd = len(co)
+        self.model, _ = make_model(cx, co)
+        self.lens = [cx.sym(f"len{i}", "int") for i in range(nd)]
+        for l in self.lens:
+            cx.assume(T.ge(l, 2))
+        self.coords = [sym_array(cx, f"coords{i}", (self.lens[i],)) for i in range(nd)]
+        self.obj = SObj(HD, {"model": self.model}, owner="arg")
+        return [self.obj, list(self.coords)], {}
+
+    def post(self, itp, case, inp, out):
+        cx = itp.cx
+        co = case["co"]
+        nd = len(co)
+        if out.outcome != "return":
+            cx.oblige("post.returns", False, "post", f"raised {out.exc}: {out.msg}")
+            return
+        r = out.value
+        if not isinstance(r, SArr) or r.ndim != nd:
+            cx.oblige("post.shape", False, "post")
+            return
+        for ax in range(nd):
+            cx.oblige(f"post.shape.axis{ax}", T.eq(r.shape[ax], self.lens[ax]), "post")
+        idx = fresh_index(cx, tuple(self.lens))
+        want = Fraction(1)
+        cx.oblige("post.every_variable_once", sorted(self.caps) == list(range(nd)), "post")
+        for d in range(nd):
+            if d in self.caps:
+                c = co[d]
+                want = T.mul(want, self.caps[d](T.zi(idx[d]), T.zi(idx[c]) if c is not None else z3.IntVal(0)))
+        cx.oblige("post.product", T.eq(r.get(idx), want), "post", "product over all variables, each on its own (and its conditioning) axis")
+
+
+GRID_CASES = [dict(limits=l, deltas=d) for l in ("ok", "too_short", "too_long") for d in ("none", "scalar", "list", "list_short", "list_long")]
+
+
+@contract(HD + "._check_grid", ["C18", "C02"], GRID_CASES, name="hdc.check_grid")
+class CheckGrid(Contract):
+    """malformed limits / deltas are rejected; scalar deltas are replicated per dimension; default deltas are
+    0.25 % of each variable's range"""
+
+    def case_label(self, case):
+        return f"limits={case['limits']},deltas={case['deltas']}"
+
+    def inputs(self, itp, case):
+        cx = itp.cx
+        nd = 3
+        self.nd = nd
+        self.model, _ = make_model(cx, [None, 0, 1])
+        nl = {"ok": nd, "too_short": nd - 1, "too_long": nd + 1}[case["limits"]]
+        self.lims = [(real(cx, f"lo{i}"), real(cx, f"hi{i}")) for i in range(nl)]
+        dk = case["deltas"]
+        if dk == "none":
+            deltas = None
+        elif dk == "scalar":
+            deltas = real(cx, "delta")
+        else:
+            m = {"list": nd, "list_short": nd - 1, "list_long": nd + 1}[dk]
+            deltas = [real(cx, f"delta{i}") for i in range(m)]
+        self.deltas_in = deltas
+        self.obj = SObj(HD, {"model": self.model, "alpha": real(cx, "alpha"), "limits": list(self.lims), "deltas": deltas}, owner="call")
+        return [self.obj], {}
+
+    def post(self, itp, case, inp, out):
+        cx = itp.cx
+        bad = case["limits"] != "ok" or case["deltas"] in ("list_short", "list_long")
+        if bad:
+            cx.oblige("raises.ValueError.grid", out.outcome == "raise" and out.exc == "ValueError", "raises", "limits / deltas of the wrong length are rejected")
+            return
+        if out.outcome != "return":
+            cx.oblige("post.returns", False, "post", f"raised {out.exc}: {out.msg}")
+            return
+        d = self.obj.fields.get("deltas")
+        nd = self.nd
+        if case["deltas"] == "scalar":
+            cx.oblige("post.deltas_scalar", isinstance(d, list) and len(d) == nd and all(x is self.deltas_in for x in d), "post", "a scalar delta applies to every dimension")
+        elif case["deltas"] == "list":
+            cx.oblige("post.deltas_list", isinstance(d, list) and len(d) == nd and all(a is b for a, b in zip(d, self.deltas_in)), "post")
+        else:
+            ok = isinstance(d, SArr) and d.ndim == 1
+            cx.oblige("post.deltas_default.shape", ok and d.shape[0] == nd, "post")
+            if ok:
+                for i in range(nd):
+                    lo, hi = self.lims[i]
+                    cx.oblige(f"post.deltas_default.{i}", T.eq(d.get((i,)), T.mul(T.sub(hi.t, lo.t), Fraction(1, 400))), "post", "default cell size = 0.25 % of the range")
